@@ -216,3 +216,168 @@ Proof.
   - unfold atoi. cbn [N.eqb Pos.eqb]. destruct (digits_head (Npos p)) as (c & r & E & _ & _).
     rewrite E. cbn [is_nil]. rewrite <- E. rewrite atoi_digits_digits. reflexivity.
 Qed.
+
+(* ---- stable sort by key is the identity on lists already sorted by key ---- *)
+From Coq Require Import Sorting.Sorted.
+
+Definition key_le {B} (a b : N * B) : Prop := fst a <= fst b.
+
+Lemma insert_by_key_le_all : forall {B} (x : N * B) l,
+  Forall (key_le x) l -> insert_by_key x l = x :: l.
+Proof.
+  intros B x l H. destruct l as [|y r]; cbn; auto.
+  inversion H; subst. unfold key_le in *. assert (E : (fst x <=? fst y) = true) by lia. rewrite E. reflexivity.
+Qed.
+
+Lemma stable_sort_sorted : forall {B} (l : list (N * B)),
+  StronglySorted key_le l -> stable_sort l = l.
+Proof.
+  intros B l H. induction H as [|x l Hs IH Hx]; cbn; auto.
+  unfold stable_sort in *. cbn. rewrite IH. apply insert_by_key_le_all. exact Hx.
+Qed.
+
+Lemma ascending_ss_map : forall {B} (f : N -> B) cov,
+  ascending cov -> StronglySorted key_le (map (fun k => (k, f k)) cov).
+Proof.
+  intros B f cov. induction cov as [|x r IH]; intros H; cbn; constructor.
+  - apply IH. eapply ascending_tail; eauto.
+  - apply Forall_forall. intros y Hy. apply in_map_iff in Hy. destruct Hy as (k & E & Hk). subst y.
+    unfold key_le. cbn. pose proof (ascending_lt_all _ _ H) as HF. rewrite Forall_forall in HF.
+    specialize (HF k Hk). lia.
+Qed.
+
+Lemma ascending_ss_combine : forall {B} cov (vs : list B),
+  ascending cov -> StronglySorted key_le (combine cov vs).
+Proof.
+  intros B cov. induction cov as [|x r IH]; intros vs H; destruct vs as [|v vs]; cbn; try constructor.
+  - apply IH. eapply ascending_tail; eauto.
+  - apply Forall_forall. intros [yk yv] Hy. apply in_combine_l in Hy.
+    unfold key_le. cbn. pose proof (ascending_lt_all _ _ H) as HF. rewrite Forall_forall in HF.
+    specialize (HF _ Hy). lia.
+Qed.
+
+Lemma ss_app : forall {B} (a b : list (N * B)),
+  StronglySorted key_le a -> StronglySorted key_le b ->
+  (forall x y, In x a -> In y b -> key_le x y) -> StronglySorted key_le (a ++ b).
+Proof.
+  intros B a b Ha Hb Hab. induction Ha as [|x l Hs IH Hx]; cbn; auto.
+  constructor.
+  - apply IH. intros. apply Hab; auto. right. auto.
+  - apply Forall_app. split; auto. apply Forall_forall. intros y Hy. apply Hab; auto. left. auto.
+Qed.
+
+Lemma ss_groups : forall {B} cov (groups : list (list B)),
+  ascending cov ->
+  StronglySorted key_le (concat (map (fun p => map (fun lg => (fst p, lg)) (snd p)) (combine cov groups))).
+Proof.
+  intros B cov. induction cov as [|x r IH]; intros groups H; destruct groups as [|g gs]; cbn; try constructor.
+  apply ss_app.
+  - clear. induction g as [|a g IHg]; cbn; constructor; auto.
+    apply Forall_forall. intros y Hy. apply in_map_iff in Hy. destruct Hy as (b & E & _). subst. unfold key_le. cbn. lia.
+  - apply IH. eapply ascending_tail; eauto.
+  - intros a b Ha Hb. apply in_map_iff in Ha. destruct Ha as (lg & E & _). subst a.
+    apply in_concat in Hb. destruct Hb as (grp & Hgrp & Hb). apply in_map_iff in Hgrp.
+    destruct Hgrp as ([k ls] & E & Hin). subst grp. apply in_map_iff in Hb. destruct Hb as (lg' & E & _). subst b.
+    unfold key_le. cbn. apply in_combine_l in Hin.
+    pose proof (ascending_lt_all _ _ H) as HF. rewrite Forall_forall in HF. specialize (HF _ Hin). lia.
+Qed.
+
+Lemma Forall_combine : forall {A B} (P : A -> Prop) (Q : B -> Prop) a b,
+  Forall P a -> Forall Q b -> Forall (fun e => P (fst e) /\ Q (snd e)) (combine a b).
+Proof.
+  intros A B P Q a. induction a as [|x a IH]; intros b Ha Hb; destruct b as [|y b]; cbn; constructor.
+  - inversion Ha; inversion Hb; subst. cbn. auto.
+  - inversion Ha; inversion Hb; subst. apply IH; auto.
+Qed.
+
+Lemma forallb_Forall : forall {A} (f : A -> bool) l, forallb f l = true -> Forall (fun x => f x = true) l.
+Proof. intros A f l H. rewrite forallb_forall in H. apply Forall_forall. exact H. Qed.
+
+(* ---- grouped data (GSUB4): keys of ascending coverage with non-empty groups ---- *)
+Definition groups {B} (cov : list N) (repl : list (list B)) : list (N * B) :=
+  concat (map (fun p => map (fun lg => (fst p, lg)) (snd p)) (combine cov repl)).
+
+Lemma groups_cons : forall {B} g cov (r : list B) repl,
+  groups (g :: cov) (r :: repl) = map (fun lg => (g, lg)) r ++ groups cov repl.
+Proof. reflexivity. Qed.
+
+Lemma groups_keys_ge : forall {B} cov (repl : list (list B)) g,
+  Forall (fun y => g < y) cov -> Forall (fun p => g < fst p) (groups cov repl).
+Proof.
+  intros B cov. induction cov as [|x cov IH]; intros repl g H; destruct repl as [|r repl]; try constructor.
+  rewrite groups_cons. inversion H; subst. apply Forall_app. split.
+  - apply Forall_forall. intros p Hp. apply in_map_iff in Hp. destruct Hp as (lg & E & _). subst. auto.
+  - apply IH; auto.
+Qed.
+
+Lemma insert_sorted_le_all : forall l x, Forall (fun y => x <= y) l -> insert_sorted x l = x :: l.
+Proof.
+  destruct l as [|y r]; intros x H; cbn; auto.
+  inversion H; subst. assert (E : (x <=? y) = true) by lia. rewrite E. reflexivity.
+Qed.
+
+Lemma isort_app_const : forall g n rest, Forall (fun y => g <= y) rest -> isort rest = rest ->
+  isort (repeat g n ++ rest) = repeat g n ++ rest.
+Proof.
+  induction n as [|n IH]; intros rest H E; cbn [repeat app]; auto.
+  unfold isort in *. cbn [fold_right]. fold (isort (repeat g n ++ rest)). unfold isort. rewrite IH by auto.
+  apply insert_sorted_le_all. apply Forall_app. split; auto.
+  apply Forall_forall. intros y Hy. apply repeat_spec in Hy. lia.
+Qed.
+
+Lemma uniq_repeat_app : forall g n rest, Forall (fun y => g < y) rest ->
+  uniq (repeat g (S n) ++ rest) = g :: uniq rest.
+Proof.
+  induction n as [|n IH]; intros rest H.
+  - cbn [repeat app uniq]. destruct rest as [|y r]; auto. inversion H; subst.
+    assert (E : (g =? y) = false) by lia. rewrite E. reflexivity.
+  - change (repeat g (S (S n)) ++ rest) with (g :: g :: (repeat g n ++ rest)).
+    cbn [uniq]. rewrite N.eqb_refl.
+    change (g :: repeat g n ++ rest) with (repeat g (S n) ++ rest). apply IH; auto.
+Qed.
+
+Lemma groups_keys : forall {B} cov (repl : list (list B)),
+  ascending cov -> length cov = length repl -> Forall (fun r => r <> []) repl ->
+  isort (map fst (groups cov repl)) = map fst (groups cov repl) /\ uniq (map fst (groups cov repl)) = cov.
+Proof.
+  intros B cov. induction cov as [|g cov IH]; intros repl Ha Hl Hn; destruct repl as [|r repl]; try discriminate.
+  - split; reflexivity.
+  - inversion Hn as [|? ? Hr Hn']; subst. cbn [length] in Hl.
+    assert (Hl' : length cov = length repl) by lia.
+    destruct (IH repl (ascending_tail _ _ Ha) Hl' Hn') as [I1 I2].
+    rewrite groups_cons, map_app, map_map. cbn [fst].
+    assert (Er : map (fun _ : B => g) r = repeat g (length r)).
+    { clear. induction r; cbn; auto. f_equal; auto. }
+    rewrite Er.
+    pose proof (groups_keys_ge cov repl g (ascending_lt_all _ _ Ha)) as HG.
+    assert (HG' : Forall (fun y => g < y) (map fst (groups cov repl))).
+    { apply Forall_forall. intros y Hy. apply in_map_iff in Hy. destruct Hy as (p & E & Hp). subst.
+      rewrite Forall_forall in HG. auto. }
+    split.
+    + apply isort_app_const; auto. eapply Forall_impl; [|exact HG']. intros; lia.
+    + destruct r as [|b r]; [congruence|]. cbn [length]. rewrite uniq_repeat_app by auto. rewrite I2. reflexivity.
+Qed.
+
+Lemma ligs_of_groups : forall cov (repl : list (list (list N * N))),
+  ascending cov -> length cov = length repl ->
+  map (fun g => ligs_of g (groups cov repl)) cov = repl.
+Proof.
+  induction cov as [|g cov IH]; intros repl Ha Hl; destruct repl as [|r repl]; try discriminate; auto.
+  cbn [length] in Hl. cbn [map]. rewrite groups_cons.
+  pose proof (ascending_lt_all _ _ Ha) as HL.
+  assert (F1 : forall (x : N) (rr : list (list N * N)), filter (fun p : N * (list N * N) => fst p =? x) (map (fun lg => (x, lg)) rr) = map (fun lg => (x, lg)) rr).
+  { intros x rr. induction rr; cbn; auto. rewrite N.eqb_refl. f_equal; auto. }
+  assert (F2 : forall (x y : N) (rr : list (list N * N)), x <> y -> filter (fun p : N * (list N * N) => fst p =? x) (map (fun lg => (y, lg)) rr) = []).
+  { intros x y rr Hxy. induction rr; cbn; auto. assert (E : (y =? x) = false) by lia. rewrite E. auto. }
+  f_equal.
+  - unfold ligs_of. rewrite filter_app, F1.
+    assert (E : filter (fun p : N * (list N * N) => fst p =? g) (groups cov repl) = []).
+    { pose proof (groups_keys_ge cov repl g HL) as HG. clear - HG.
+      induction (groups cov repl) as [|p l IHl]; cbn; auto. inversion HG; subst.
+      assert (E : (fst p =? g) = false) by lia. rewrite E. auto. }
+    rewrite E, app_nil_r, map_map. cbn [snd]. apply map_id.
+  - assert (Hl' : length cov = length repl) by lia.
+    rewrite <- (IH repl (ascending_tail _ _ Ha) Hl') at 2.
+    apply map_ext_in. intros x Hx. unfold ligs_of. rewrite filter_app.
+    rewrite F2; auto. rewrite Forall_forall in HL. specialize (HL x Hx). lia.
+Qed.
